@@ -1183,7 +1183,7 @@ def run_book(case):
             else:
                 raise ValueError('unknown step ' + str(kind))
         except Exception as e:
-            out['error'] = {'step': si, 'op': step, 'error': type(e).__name__, 'msg': str(e)[:200], 'tb': traceback.format_exc()[-1800:]}
+            out['error'] = {'step': si, 'op': step, 'error': type(e).__name__, 'msg': str(e)[:200], 'tb': traceback.format_exc()[-4000:]}
             out['applied'].append('raised')
             break
         out['applied'].append(status)
